@@ -16,8 +16,11 @@ import (
 	"bytes"
 	"fmt"
 	"go/ast"
+	"go/parser"
 	"go/printer"
 	"go/token"
+	"os"
+	"path/filepath"
 	"sort"
 	"strings"
 )
@@ -754,7 +757,34 @@ func cgReleaseFID(r *Repo, fd *ast.FuncDecl) (string, error) {
 	return "", r.Refuse(fd.Pos(), "releaseFID body %s", cgExprString(r, fd.Body))
 }
 
+// cgNoComments: a private view of package p9 parsed WITHOUT comments, so that editing a comment changes no table.
+func cgNoComments(r *Repo) (*Repo, error) {
+	r2 := &Repo{Root: r.Root, Fset: token.NewFileSet(), pkgs: map[string]map[string]*ast.File{}}
+	m := map[string]*ast.File{}
+	ents, err := os.ReadDir(filepath.Join(r.Root, "p9"))
+	if err != nil {
+		return nil, err
+	}
+	for _, e := range ents {
+		n := e.Name()
+		if e.IsDir() || !strings.HasSuffix(n, ".go") || strings.HasSuffix(n, "_test.go") {
+			continue
+		}
+		f, err := parser.ParseFile(r2.Fset, filepath.Join(r.Root, "p9", n), nil, 0)
+		if err != nil {
+			return nil, err
+		}
+		m[n] = f
+	}
+	r2.pkgs["p9"] = m
+	return r2, nil
+}
+
 func runClientGen(r *Repo) (string, error) {
+	r, err := cgNoComments(r)
+	if err != nil {
+		return "", err
+	}
 	files, err := r.Files("p9")
 	if err != nil {
 		return "", err
@@ -852,6 +882,65 @@ func runClientGen(r *Repo) (string, error) {
 		return "", err
 	}
 
+	// whole bodies, statement by statement (locals by role): nothing can be added to these functions unnoticed
+	bodyOf := func(key string) ([]string, error) {
+		fd, ok := decls[key]
+		if !ok || fd.Body == nil {
+			return nil, fmt.Errorf("%s not found", key)
+		}
+		cgCur = cgRoles(fd)
+		defer func() { cgCur = nil }()
+		var out []string
+		for _, st := range fd.Body.List {
+			out = append(out, cgExprString(r, st))
+		}
+		return out, nil
+	}
+	bodies := map[string][]string{}
+	for _, k := range []string{"Client.sendRecv", "Client.handleOne", "Client.waitAndRecv", "Client.releaseFID", "pool.Get", "pool.Put"} {
+		bd, err := bodyOf(k)
+		if err != nil {
+			return "", err
+		}
+		bodies[k] = bd
+	}
+	// NewClient: the literal bounds of the two pools
+	var pools [][3]string
+	if nc, ok := decls["NewClient"]; ok {
+		ast.Inspect(nc.Body, func(n ast.Node) bool {
+			kv, ok := n.(*ast.KeyValueExpr)
+			if !ok {
+				return true
+			}
+			key, ok := kv.Key.(*ast.Ident)
+			if !ok || (key.Name != "tagPool" && key.Name != "fidPool") {
+				return true
+			}
+			lit, ok := kv.Value.(*ast.CompositeLit)
+			if !ok {
+				return true
+			}
+			p := [3]string{key.Name, "?", "?"}
+			for _, el := range lit.Elts {
+				if f, ok := el.(*ast.KeyValueExpr); ok {
+					v := cgExprString(r, f.Value)
+					switch f.Key.(*ast.Ident).Name {
+					case "start":
+						p[1] = v
+					case "limit":
+						p[2] = v
+					default:
+						p[1] = "unexpected field"
+					}
+				}
+			}
+			pools = append(pools, p)
+			return true
+		})
+	}
+	if len(pools) != 2 {
+		return "", fmt.Errorf("NewClient: tagPool/fidPool literals not found")
+	}
 	var b strings.Builder
 	b.WriteString(`From Coq Require Import String List.
 Import ListNotations.
@@ -892,6 +981,15 @@ Record gmethod := mkgm {
 	fmt.Fprintf(&b, "Definition handleone_checks_found : bool := %v.\n", chk)
 	fmt.Fprintf(&b, "(* the receiver remembers a ConnError: later calls fail without being registered *)\nDefinition recv_error_marks_dead : bool := %v.\n", marks)
 	fmt.Fprintf(&b, "Definition release_fid_policy : string := %s.\n\n", cgQ(rel))
+	for _, k := range []string{"Client.sendRecv", "Client.handleOne", "Client.waitAndRecv", "Client.releaseFID", "pool.Get", "pool.Put"} {
+		var qs []string
+		for _, t := range bodies[k] {
+			qs = append(qs, cgQ(t))
+		}
+		fmt.Fprintf(&b, "Definition src_%s : list string :=\n  [%s].\n", strings.ReplaceAll(k, ".", "_"), strings.Join(qs, ";\n   "))
+	}
+	fmt.Fprintf(&b, "Definition newclient_pools : list (string * string * string) := [(%s, %s, %s); (%s, %s, %s)].\n\n",
+		cgQ(pools[0][0]), cgQ(pools[0][1]), cgQ(pools[0][2]), cgQ(pools[1][0]), cgQ(pools[1][1]), cgQ(pools[1][2]))
 	b.WriteString("Definition methods : list gmethod := [\n")
 	for i, m := range ms {
 		var ps, ss, ts []string
